@@ -1,9 +1,12 @@
 (* C16 -- bulk operations equal element-wise scalar calls and fail atomically.  PARTIAL: pandas (dtype, NA) and the
-   csv module (quoting, line terminators) are runtime; the run compares real data frames and the bytes on disk. *)
+   csv module (quoting, line terminators) are runtime; the run compares real data frames and the bytes on disk.
+   The theorems hold for EVERY scalar function sc (whatever the scalar method answers, bulk = element-wise application of
+   it); C16_scalar names the scalar method each bulk operation instantiates sc with, and the run judges the real bulk
+   calls against the implementation's own scalar answers on the same cells. *)
 From Curies.model Require Import Str PyData Trie Conv Query Val Answer Spec CheckQ Bulk.
 From Curies.proofs Require Import StrFacts BulkFacts.
 
-(* the scalar method each bulk operation uses (definitional, stated for the reader) *)
+(* the scalar method each bulk operation uses *)
 Theorem C16_scalar : forall c st pa am x,
   scalar c BCompress st pa false x = compress c x st pa /\ scalar c BCompress st pa true x = compress_or_standardize c x st pa /\
   scalar c BExpand st pa false x = expand c x st pa /\ scalar c BExpand st pa true x = expand_or_standardize c x st pa /\
@@ -11,19 +14,24 @@ Theorem C16_scalar : forall c st pa am x,
   scalar c BStdUri st pa am x = standardize_uri c x st pa.
 Proof. intros. repeat split. Qed.
 Print Assumptions C16_scalar.
+Theorem C16_instances : forall c f st pa am,
+  pd_apply c f st pa am = pd_apply_g (scalar c f st pa am) /\ file_rows c f st pa am = file_rows_g (scalar c f st pa am) /\
+  file_after c f st pa am = file_after_g (scalar c f st pa am).
+Proof. intros. repeat split. Qed.
+Print Assumptions C16_instances.
 
 (* data frames: the (target) column holds the scalar results cell by cell (None = NA), everything else is preserved *)
-Theorem C16_pd : forall c f st pa am rows col target t, pd_apply c f st pa am rows col target = Val t ->
+Theorem C16_pd : forall sc rows col target t, pd_apply_g sc rows col target = Val t ->
   length t = length rows /\
-  forall n row, nth_error rows n = Some row -> exists x v row', nth_error row col = Some (Some x) /\ scalar c f st pa am x = Val v /\
+  forall n row, nth_error rows n = Some row -> exists x v row', nth_error row col = Some (Some x) /\ sc x = Val v /\
     nth_error t n = Some row' /\
     (target < length row -> length row' = length row /\ nth_error row' target = Some v /\ forall m, m <> target -> nth_error row' m = nth_error row m) /\
     (length row <= target -> row' = row ++ [v]).
 Proof. exact pd_ok. Qed.
 Print Assumptions C16_pd.
-Theorem C16_pd_error : forall c f st pa am rows col target e, pd_apply c f st pa am rows col target = Raise e ->
+Theorem C16_pd_error : forall sc rows col target e, pd_apply_g sc rows col target = Raise e ->
   exists n row, nth_error rows n = Some row /\
-    (match nth_error row col with Some (Some x) => scalar c f st pa am x | _ => Raise EOther end) = Raise e.
+    (match nth_error row col with Some (Some x) => sc x | _ => Raise EOther end) = Raise e.
 Proof. exact pd_error. Qed.
 Print Assumptions C16_pd_error.
 
@@ -34,18 +42,18 @@ Proof. exact @map_res_first_error. Qed.
 Print Assumptions C16_first_error.
 
 (* files: the chosen column is converted cell by cell (missing results -> empty cell); header, other columns, row order kept *)
-Theorem C16_file_ok : forall c f st pa am header rows col rows', file_rows c f st pa am rows col = Val rows' ->
-  file_after c f st pa am header rows col = (Val tt, (header, rows')) /\ length rows' = length rows /\
-  forall n row, nth_error rows n = Some row -> exists x v row', nth_error row col = Some x /\ scalar c f st pa am x = Val v /\
+Theorem C16_file_ok : forall sc header rows col rows', file_rows_g sc rows col = Val rows' ->
+  file_after_g sc header rows col = (Val tt, (header, rows')) /\ length rows' = length rows /\
+  forall n row, nth_error rows n = Some row -> exists x v row', nth_error row col = Some x /\ sc x = Val v /\
      nth_error rows' n = Some row' /\ length row' = length row /\
      nth_error row' col = Some (match v with Some y => y | None => [] end) /\
      forall m, m <> col -> nth_error row' m = nth_error row m.
 Proof. exact file_ok. Qed.
 Print Assumptions C16_file_ok.
 (* if any cell makes the operation raise (strict mode, or a short row), the file is what it was -- at whatever position *)
-Theorem C16_file_atomic : forall c f st pa am header rows col,
+Theorem C16_file_atomic : forall sc header rows col,
   (exists n row, nth_error rows n = Some row /\
-     (nth_error row col = None \/ exists x e, nth_error row col = Some x /\ scalar c f st pa am x = Raise e)) ->
-  exists e, file_after c f st pa am header rows col = (Raise e, (header, rows)).
+     (nth_error row col = None \/ exists x e, nth_error row col = Some x /\ sc x = Raise e)) ->
+  exists e, file_after_g sc header rows col = (Raise e, (header, rows)).
 Proof. exact file_atomic_any_position. Qed.
 Print Assumptions C16_file_atomic.
